@@ -220,6 +220,18 @@ int main(int argc, char** argv) {
                     Position mp = mirrored(pos);
                     pairJ(os, "mirror", a, evJ(mp, contempt, freshEval(mp, contempt), "mirrored-fresh")); pairs++;
                 }
+                if (rnd.nextInt(5) == 0) {   // same placement under another half-move clock through the same (polluted) cache: the cache key
+                                             // lumps clocks together (Position::historyHash), the evaluation must not tell them apart then
+                    Position c(pos);
+                    static const int clocks[] = {0, 1, 10, 20, 29, 30, 31, 35, 39, 40, 41, 49, 50, 60, 79, 80, 81, 90, 99};
+                    c.setHalfMoveClock(clocks[rnd.nextInt(19)]);
+                    Evaluate ev4(*et);
+                    ev4.connectPosition(c);
+                    ev4.setWhiteContempt(contempt);
+                    int v4 = ev4.evalPos();
+                    pairJ(os, "same", evJ(c, contempt, v4, "cache-polluted-other-clock"), evJ(c, contempt, freshEval(c, contempt), "fresh")); pairs++;
+                    ev.connectPosition(pos);
+                }
                 if (rnd.nextInt(6) == 0) {   // same position evaluated under another contempt through the same (polluted) cache
                     int c2 = contempt == 0 ? 77 : -contempt;
                     Position c(pos);
